@@ -47,6 +47,8 @@ class FakeDevice:
         self.responder: Callable = auto_responder()
         # gate(conn, index, frame): awaited before the reply is sent (reply scheduler)
         self.gate: Optional[Callable] = None
+        # lag(conn, index, frame) -> seconds of real time the device lets pass before it replies (None: replies at once)
+        self.lag: Optional[Callable] = None
         self._session_counter = itertools.count(1)
 
     async def start(self) -> None:
@@ -120,6 +122,16 @@ class FakeDevice:
                     action = await action
                 if self.gate is not None:
                     await self.gate(conn, idx, bytes(data))
+                if self.lag is not None:
+                    seconds = self.lag(conn, idx, bytes(data))
+                    if seconds:
+                        # the device takes its time: that much real (monotonic / event-loop) time passes before the reply, and the
+                        # loop gets a few turns so that any timer the client armed around its read has fired by then
+                        from ..env import idle
+
+                        idle(seconds)
+                        for _ in range(4):
+                            await asyncio.sleep(0)
                 conn.sent.append(action if isinstance(action, str) else bytes(action))
                 if action == EOF:
                     conn.half_closed = True
@@ -217,8 +229,6 @@ async def settle(conn: Conn, expected_bytes: int, cycles: int = 200) -> bool:
 
 
 async def wait_eof(conn: Conn, timeout: float = 10.0) -> bool:
-    try:
-        await asyncio.wait_for(conn.eof_seen.wait(), timeout)
-        return True
-    except asyncio.TimeoutError:
-        return False
+    from ..env import wait_real
+
+    return await wait_real(conn.eof_seen, timeout)
